@@ -33,7 +33,9 @@ func checkC15(c *Ctx, r *Report) {
 	examine = func(fn *ssa.Function, rd, under ssa.Value, made string, depth int) bool {
 		where := fnName(fn)
 		isRd := map[ssa.Value]bool{}
-		for _, a := range g9Aliases(rd) {
+		// rd itself, a once-assigned variable holding it, or a field of a local struct that holds
+		// nothing else (ip_h3.go)
+		for _, a := range h3ReaderAliases(fn, rd) {
 			isRd[a] = true
 		}
 		// does the function hand the underlying connection back?
